@@ -1148,10 +1148,12 @@ def run(ctx):
     # correspondence of the base (encoding) check model
     from compare_locales.checks.base import Checker
 
-    class Ent:
-        def __init__(self, all):
-            self.all = all
-            self.key = "k"
+    from compare_locales.parser.base import LiteralEntity
+
+    def Ent(all):
+        # a REAL entity object of the code under test (literal key/value/all), not a stand-in: the checker may
+        # use any attribute an entity has
+        return LiteralEntity("k", all, all)
     rng = ctx.rng("c05-base")
     texts = []
     for _ in range(ctx.n(3000, 40000)):
@@ -1160,7 +1162,11 @@ def run(ctx):
     lines = ["basecheck " + C.enc(t) for t in texts]
     model = C.run_driver_parallel(lines) if ctx.model_ok else []
     for t, mo in zip(texts, model):
-        res = list(Checker(None).check(Ent(t), Ent(t)))
+        try:
+            res = list(Checker(None).check(Ent(t), Ent(t)))
+        except Exception as e:     # the implementation raises on a literal entity: not a verdict of this stream
+            out.disagreements.append({"op": "basecheck", "text": t, "impl": "raises %s: %s" % (type(e).__name__, str(e)[:120]), "model": mo})
+            continue
         canon = " ".join("%s%d:%s" % (tp[0], int(pos), cat) for tp, pos, msg, cat in res)
         out.evaluations += 1
         exp = [i for i, ch in enumerate(t) if ch == "�"]
